@@ -486,7 +486,10 @@ def run(ctx):
         ctx.fail('C12.R9', f.key, f.site, f.message + ' - a request whose batch item ID has such a length is then answered with a response no client can decode')
     if not lifted:
         ctx.ok('C12.R9', 'kmip/core/primitives.py', 'decoded text/byte strings keep a padding count in 0..7')
-    ctx.not_decided += ['that no byte string makes response.write itself fail (then no response is sent; run() logs and continues)',
+    # ---------------- R10 every failed item can be encoded (shared with C02.R9)
+    from .c02 import check_failure_messages_nonempty
+    check_failure_messages_nonempty(ctx, 'C12.R10')
+    ctx.not_decided += ['that no byte string makes response.write itself fail for reasons other than those of R9/R10 (then no response is sent; run() logs and continues)',
                         'decoder work bounds beyond per-iteration consumption; recursion depth of nested structures']
     ctx.assumptions += ['struct.unpack raises on a short buffer', 'socket.recv(n) returns at most n bytes']
 
